@@ -1,2 +1,111 @@
-(* C15 - every command emits the MIDI message the standard and the command list prescribe. *)
+(* C15 - every command emits the MIDI message the standard and the command list prescribe.
+   Statements only; proofs are `exact <lemma>` (or a vm_compute check of the regenerated tables lifted by
+   a lemma of proofs/CmdP.v).  Tables: gen/SysFuncTable.v (mml_def.rs init_system_functions), gen/VoiceTable.v
+   (init_variables), gen/DocTable.v (command.md, voice.md) - regenerated from /repo on every run;
+   spec/GmSpec.v holds the constants of the MIDI standards, written by hand. *)
+From Coq Require Import String.
+From Sakura.Model Require Import Base Event Utf8 Cmd Writer.
+From Sakura.Spec Require Import SmfSpec TrackSpec GmSpec Utf8Spec CmdSpec.
+From Sakura.Gen Require Import SysFuncTable VoiceTable DocTable.
 From Sakura.Proofs Require Import CmdP.
+
+(* ============================ table theorems ============================ *)
+
+(* every named controller command carries the controller number that command.md documents (CC#n) and that
+   the MIDI standard assigns to the controller of that name; every documented CC#n row is such a command *)
+Theorem C15_cc_numbers :
+  (forall r, In r sysfuncs -> sf_type r = TkControlChangeCommand ->
+     assoc (sf_name r) doc_cc = Some (sf_tag1 r) /\ assoc (sf_name r) named_controllers = Some (sf_tag1 r)) /\
+  (forall n v, In (n, v) doc_cc ->
+     exists r, In r sysfuncs /\ sf_name r = n /\ sf_type r = TkControlChangeCommand /\ sf_tag1 r = v).
+Proof. split; [exact cc_numbers | exact doc_cc_defined]. Qed.
+
+(* Rows of command.md that share a description without being spellings of one command (the description
+   was copied: VibratoDepth/VibratoDelay say "set VibratoRate", Array says "define string variables",
+   CONTINUE says "exit from loop", Include says "Unimplemented").  They are excluded from C15_aliases by
+   name, and C15_doc_copy_paste_not_aliases shows that each of them really is not an alias group. *)
+Definition doc_copy_paste_groups : list (list (list Z)) :=
+  [ map zs ["System.q2Add"; "q2Add"; "System.Include"; "Include"; "INCLUDE"]%string;
+    map zs ["VibratoRate"; "VibratoDepth"; "VibratoDelay"]%string;
+    map zs ["Str"; "STR"; "Array"; "ARRAY"]%string;
+    map zs ["BREAK"; "Break"; "EXIT"; "Exit"; "CONTINUE"; "Continue"]%string ].
+
+(* all spellings that command.md documents as one command (same description up to the example, same
+   CC#n, or `=NAME`) are registered with the same token type, argument type and tags *)
+Theorem C15_aliases : forall g, In g doc_alias_groups -> ~ In g doc_copy_paste_groups ->
+  forall a b ra rb, In a g -> In b g ->
+    find_sysfunc a sysfuncs = Some ra -> find_sysfunc b sysfuncs = Some rb ->
+    sf_type ra = sf_type rb /\ sf_arg ra = sf_arg rb /\ sf_tag1 ra = sf_tag1 rb /\ sf_tag2 ra = sf_tag2 rb.
+Proof. apply aliases_from_check. vm_compute. reflexivity. Qed.
+Theorem C15_doc_copy_paste_not_aliases : forall g, In g doc_copy_paste_groups ->
+  In g doc_alias_groups /\ group_ok g = false.
+Proof. apply exceptions_from_check. vm_compute. reflexivity. Qed.
+(* names are unique, so "the row of a name" is well defined; every documented command is registered
+   (End/END are recognised by lex() itself, `Result` is documented but not a command) *)
+Theorem C15_rows_unique : forall r, In r sysfuncs -> find_sysfunc (sf_name r) sysfuncs = Some r.
+Proof. exact find_row. Qed.
+Theorem C15_doc_commands_defined : forall n, In n doc_command_names ->
+  ~ In n (map zs ["End"; "END"; "Result"]%string) -> exists r, In r sysfuncs /\ sf_name r = n.
+Proof. apply defined_from_check. vm_compute. reflexivity. Qed.
+
+(* every name of voice.md (128 voices, drum sets, drum notes) is defined with its documented number; no
+   definition contradicts voice.md or command.md; the General MIDI sound set / percussion map names
+   carry their GM numbers; voice.md lists every program 1..128 exactly once, in order *)
+Theorem C15_voices :
+  (forall n v, In (n, v) doc_all_voices -> assoc n voices = Some v) /\
+  (forall n v d, In (n, v) voices -> assoc n doc_all_voices = Some d -> d = v) /\
+  (forall n v d, In (n, v) doc_values -> assoc n voices = Some d -> d = v) /\
+  (forall n v, In (n, v) gm_programs -> assoc n voices = Some v /\ assoc n doc_voices = Some v) /\
+  (forall n v, In (n, v) gm_percussion -> assoc n voices = Some v /\ assoc n doc_drumnotes = Some v) /\
+  map snd doc_voices = map Z.of_nat (seq 1 128).
+Proof. exact voices_thm. Qed.
+
+(* RPN / NRPN commands select the standard's parameter: pitch bend sensitivity 0,0; fine tune 0,1; coarse
+   tune 0,2; GS/XG vibrato rate/depth/delay 1,8/9/10, cutoff 1,32, resonance 1,33, EG 1,99/100/102 *)
+Theorem C15_rpn_addresses :
+  (forall r, In r sysfuncs -> sf_type r = TkRPNCommand -> assoc (sf_name r) named_rpn = Some (sf_tag1 r, sf_tag2 r)) /\
+  (forall r, In r sysfuncs -> sf_type r = TkNRPNCommand -> assoc (sf_name r) named_nrpn = Some (sf_tag1 r, sf_tag2 r)) /\
+  (forall n a, In (n, a) named_rpn -> exists r, In r sysfuncs /\ sf_name r = n /\ sf_type r = TkRPNCommand /\ (sf_tag1 r, sf_tag2 r) = a) /\
+  (forall n a, In (n, a) named_nrpn -> exists r, In r sysfuncs /\ sf_name r = n /\ sf_type r = TkNRPNCommand /\ (sf_tag1 r, sf_tag2 r) = a).
+Proof. exact rpn_addresses. Qed.
+
+(* text commands carry the SMF meta event type of their name *)
+Theorem C15_meta_types : forall r, In r sysfuncs -> sf_type r = TkMetaText ->
+  assoc (sf_name r) named_text_meta = Some (sf_tag1 r).
+Proof. exact meta_types. Qed.
+
+(* non-vacuity of the table theorems *)
+Example C15_tables_example :
+  (exists r, In r sysfuncs /\ sf_type r = TkControlChangeCommand /\ sf_name r = zs "Reverb" /\ sf_tag1 r = 91) /\
+  (exists g, In g doc_alias_groups /\ ~ In g doc_copy_paste_groups /\ In (zs "Tempo") g /\ In (zs "BPM") g /\
+             find_sysfunc (zs "BPM") sysfuncs <> None) /\
+  In (zs "SteelGuitar", 26) doc_all_voices /\ In (zs "Gunshot", 128) voices /\
+  (exists r, In r sysfuncs /\ sf_type r = TkNRPNCommand /\ sf_name r = zs "VibratoRate") /\
+  zlen sysfuncs = sysfunc_count /\ (150 <= sysfunc_count).
+Proof.
+  split; [|split; [|split; [|split; [|split; [|split]]]]].
+  - exists (mkSF (zs "Reverb") TkControlChangeCommand 42 91 0). split; [|repeat split].
+    apply (proj1 (find_sysfunc_In (zs "Reverb") sysfuncs _ eq_refl)).
+  - exists (map zs ["Tempo"; "TEMPO"; "T"; "BPM"]%string).
+    split; [|split; [|split; [|split]]].
+    + apply mem_group_In. vm_compute. reflexivity.
+    + intros H. apply mem_group_In in H. vm_compute in H. discriminate.
+    + vm_compute. auto.
+    + vm_compute. auto 6.
+    + vm_compute. discriminate.
+  - apply assoc_In. vm_compute. reflexivity.
+  - apply assoc_In. vm_compute. reflexivity.
+  - exists (mkSF (zs "VibratoRate") TkNRPNCommand 42 1 8). split; [|repeat split].
+    apply (proj1 (find_sysfunc_In (zs "VibratoRate") sysfuncs _ eq_refl)).
+  - exact sysfunc_count_ok.
+  - vm_compute. discriminate.
+Qed.
+
+Print Assumptions C15_cc_numbers.
+Print Assumptions C15_aliases.
+Print Assumptions C15_doc_copy_paste_not_aliases.
+Print Assumptions C15_rows_unique.
+Print Assumptions C15_doc_commands_defined.
+Print Assumptions C15_voices.
+Print Assumptions C15_rpn_addresses.
+Print Assumptions C15_meta_types.
